@@ -40,6 +40,9 @@ AssocEv(e) ==
   ELSE IF {[comp |-> e.got[k].comp, sigs |-> SeqSet(e.got[k].sigs)] : k \in 1..Len(e.got)} # Assoc(e.blob) THEN "C14.association"
   ELSE IF \E k \in 1..Len(e.got) : Len(e.got[k].sigs) # Cardinality(SeqSet(e.got[k].sigs)) THEN "C14.association"   \* none held twice
   ELSE IF ~Split(e.reexport).ok \/ Assoc(e.reexport) # Assoc(e.blob) THEN "C14.association-export"
+  ELSE IF e.copy_export # e.reexport THEN "C14.copy"                         \* a copy exports identically
+  \* the public twin carries the same signature packets (octet for octet) on the same components
+  ELSE IF ~Split(e.pub_export).ok \/ Assoc(e.pub_export) # Assoc(e.blob) THEN "C14.association-export"
   ELSE "ok"
 Judge(e) == IF e.k = "split" THEN SplitEv(e) ELSE IF e.k = "assoc" THEN AssocEv(e) ELSE "harness.unknown-event"
 Init == i = 1
